@@ -43,7 +43,10 @@ pub fn gen_history(rng: &mut Rng, len: usize, max_live: usize) -> Vec<Api> {
   let mut ver = 0u64;
   while out.len() < len {
     let r = rng.below(100);
-    if live.is_empty() || (r < 8 && live.len() < max_live) {
+    // with several handles allowed, open them early and often so that commits of different
+    // handles interleave (caches of live documents go stale across other handles' commits)
+    let open_p = if max_live > 1 { 22 } else { 8 };
+    if live.is_empty() || (r < open_p && live.len() < max_live) {
       let h = (1..=3u64).find(|h| !live.contains(h)).unwrap_or(1);
       if !live.contains(&h) {
         live.push(h);
@@ -63,7 +66,7 @@ pub fn gen_history(rng: &mut Rng, len: usize, max_live: usize) -> Vec<Api> {
       Api::Commit(h)
     } else if r < 84 {
       Api::Rollback(h)
-    } else if r < 91 {
+    } else if r < 88 {
       live.retain(|x| *x != h);
       Api::Drop(h)
     } else if r < 96 {
